@@ -55,7 +55,7 @@ serves the refutation only and reaches one Mathlib module through `Lemmas.Find`)
   `Lemmas.LoadOrder.loadAll_kept` / `regRel_of_sameFirsts` (`Lemmas/LoadOrderKept.lean`): a refused
   load leaves the registry as it was, so any load list can be replaced by its accepted loads;
 * every registry lookup, `findGrouping`, `toEntry` (with its caches and visited set), `find` /
-  `walkParts`, linking, the augment loop, `FixChoice`, the leftover pass, deviations commute with
+  `walkParts`, linking, the augment loop, `FixChoice`, the retry rounds and the reporting sweep, deviations commute with
   the renaming `σ` (`toEntry_ren`, `find_ren`, `augmentPhase_rel`, `applyDeviations_ren`,
   `processAll_rel`); the orders in which `Process` walks the tables are sorted orders over distinct
   keys / full names and therefore correspond element by element (`Lemmas/SortUnique`);
